@@ -16,7 +16,7 @@ HARNESS = os.path.join(ROOT, "harness")
 BIN = os.path.join(HARNESS, "target", "release")
 EVIDENCE = os.path.join(ROOT, "evidence")
 REPLAYS = os.path.join(ROOT, "replays")
-KNOWN = os.path.join(ROOT, "known_findings.jsonl")
+KNOWN = os.path.join(ROOT, "known_findings.txt")
 
 
 class ToolError(Exception):
@@ -139,6 +139,20 @@ def tlc_check(ctx, module, cfg, workers=8, timeout=1200, simulate=None, coverage
     return s, out
 
 
+def tlc_expect_violation(ctx, module, cfg, invariant, workers=6, timeout=600):
+    """Self-test of a design-level model: a configuration that encodes a known-bad rule must make
+    TLC report the named invariant as violated (otherwise the model has lost its teeth)"""
+    metadir = os.path.join(ctx.work, "meta-" + cfg.replace(".cfg", ""))
+    cmd = ["timeout", str(timeout)] + tlc_cmd(module, cfg, workers, metadir)
+    p = sh(cmd, cwd=SPEC, timeout=timeout + 30, check=False)
+    out = p.stdout + p.stderr
+    if f"Invariant {invariant} is violated" not in out:
+        tail = "\n".join(l for l in out.splitlines() if not l.startswith(("Semantic", "Parsing", "Linting")))[-1500:]
+        raise ToolError(f"self-test failed: {module}/{cfg} was expected to violate {invariant}:\n{tail}")
+    log(f"TLC {module}/{cfg}: violates {invariant} as expected ({p.wall:.1f}s)")
+    ctx.notes.setdefault("model_selftests", []).append({"module": module, "cfg": cfg, "violates": invariant})
+
+
 def tlc_trace(ctx, module, trace, timeout=1800):
     """Trace validation. Returns (accepted, info) where info has the rejected record on rejection"""
     metadir = os.path.join(ctx.work, "meta-trace")
@@ -150,6 +164,7 @@ def tlc_trace(ctx, module, trace, timeout=1800):
     nlines = sum(1 for _ in open(trace))
     if s.get("ok") and s.get("depth", 0) - 1 == nlines:
         log(f"TLC {module}: accepted {nlines} events in {p.wall:.1f}s")
+        handle_known_markers(ctx, out, trace)
         return True, {"events": nlines, "wall_s": round(p.wall, 1)}
     m = re.search(r'<<"REJECT", (\d+), "(.*)">>', out)
     if m:
@@ -167,6 +182,41 @@ def tlc_trace(ctx, module, trace, timeout=1800):
             return False, {"line": line, "record": rec, "events": nlines, "tlc_error": True}
     tail = "\n".join(l for l in out.splitlines() if not l.startswith(("Semantic", "Parsing", "Linting")))[-3000:]
     raise ToolError(f"trace validation failed to run on {trace}:\n{tail}")
+
+
+def handle_known_markers(ctx, out, trace):
+    """The specification names deliberate deviations of the code as their own disjuncts and prints
+    <<"KNOWN", signature, run, i>> when one is taken.  Accepted only if known_findings.txt lists the
+    signature; otherwise it is a violation like any other."""
+    seen = {}
+    for m in re.finditer(r'<<"KNOWN", "([^"]+)", (\d+), (\d+)>>', out):
+        seen.setdefault(m.group(1), (int(m.group(2)), int(m.group(3))))
+    if not seen:
+        return
+    listed = {k["property"] + "/" + k["signature"]: k for k in load_known() if k["kind"] == "known"}
+    for sig, (run, i) in seen.items():
+        if sig in listed:
+            k = listed[sig]
+            line = f"property={k['property']} {k['what']}"
+            if line not in ctx.known_hits:
+                ctx.known_hits.append(line)
+            continue
+        # not listed: build the replay up to that event
+        events, cfg, line_no = [], None, 0
+        with open(trace) as f:
+            for n, l in enumerate(f):
+                ev = json.loads(l)
+                if ev["e"] == "reset":
+                    events, cfg = [], ev.get("cfg")
+                    continue
+                events.append(ev)
+                if ev.get("run") == run and ev.get("i") == i and ev["e"] not in ("cbegin",):
+                    line_no = n + 1
+                    break
+        prop = sig.split("/")[0]
+        what = f"deviation {sig} is not listed in known_findings.txt (run {run}, step {i})"
+        payload = {"property": prop, "kind": "kv-script", "cfg": cfg, "steps": events_to_steps(events), "what": what, "signature": sig}
+        raise Violation(prop, save_replay(prop, payload), what, sig)
 
 
 # ------------------------------------------------------------------------------------------------
@@ -198,12 +248,20 @@ class Ctx:
 
 
 def load_known():
+    """known: property=<id> signature=<sig> <what>   /   fixed: property=<id> <commit> <what>"""
     out = []
     if os.path.exists(KNOWN):
         for l in open(KNOWN):
             l = l.strip()
-            if l and not l.startswith("#"):
-                out.append(json.loads(l))
+            if not l or l.startswith("#"):
+                continue
+            m = re.match(r"known: property=(\S+) signature=(\S+) (.*)", l)
+            if m:
+                out.append({"kind": "known", "property": m.group(1), "signature": m.group(2), "what": m.group(3)})
+                continue
+            m = re.match(r"fixed: property=(\S+) (\S+) (.*)", l)
+            if m:
+                out.append({"kind": "fixed", "property": m.group(1), "commit": m.group(2), "what": m.group(3)})
     return out
 
 
@@ -276,11 +334,14 @@ def events_to_steps(events):
         if e == "abort":
             steps.append({"e": "dropw" if ev.get("how") == "drop" else "abort"})
             continue
+        if e == "acct":
+            steps.append({"e": "acct", "settled": ev.get("settled", False)})
+            continue
         if e in ("reopen", "dump"):
             s = {k: v for k, v in ev.items() if k in ("e", "src")}
             steps.append(s)
             continue
-        steps.append({k: v for k, v in ev.items() if k not in ("r", "bk", "run", "i")})
+        steps.append({k: v for k, v in ev.items() if k not in ("r", "bk", "run", "i", "stale")})
     return steps
 
 
@@ -397,6 +458,51 @@ def replay_crash_case(ctx, replay_path):
     ok, info = tlc_trace(ctx, "KvTrace", trace)
     if not ok:
         log("replay still rejected:", json.dumps(info["record"])[:400])
+    return not ok
+
+
+def run_sched(ctx, scenario, variants):
+    """Schedules forced through the pause points; TLC judges the recorded trace"""
+    trace = os.path.join(ctx.work, f"sched-{scenario}.ndjson")
+    p = sh([bin_path("sched"), "--scenario", scenario, "--variants", str(variants), "--seed", str(ctx.seed), "--out", trace], timeout=1800)
+    stats = json.loads(p.stdout.strip().splitlines()[-1])
+    log(f"sched {scenario}: {stats['variants']} variants, {stats['held_at_pause_point']} held at the pause point, {stats['events']} events")
+    if stats["held_at_pause_point"] < stats["variants"]:
+        raise ToolError(f"schedule replay did not reach its pause point in every variant: {stats}")
+    ok, info = tlc_trace(ctx, "KvTrace", trace)
+    ctx.cov["evaluations"] += stats["events"]
+    ctx.cov["distinct_nontrivial"] += stats["held_at_pause_point"]
+    ctx.notes[f"sched_{scenario}"] = {k: stats[k] for k in ("variants", "held_at_pause_point", "events")}
+    ctx.add_samples(stats["samples"][:1])
+    if ok:
+        ctx.cov["traces_validated_against_impl"] += stats["variants"]
+        return stats
+    rec = info["record"]
+    events = []
+    cfg = None
+    with open(trace) as f:
+        for i, l in enumerate(f):
+            if i + 1 > info["line"]:
+                break
+            ev = json.loads(l)
+            if ev["e"] == "reset":
+                events = []
+                cfg = ev.get("cfg")
+                continue
+            events.append(ev)
+    what = (f"schedule {scenario} variant {rec.get('run')}: KvTrace rejects {rec.get('e')} "
+            f"{json.dumps(rec.get('obs', rec.get('r')))[:300]}")
+    sig = f"sched:{scenario}:" + hashlib.sha256(json.dumps(rec.get("e")).encode()).hexdigest()[:8]
+    payload = {"property": ctx.prop, "kind": "sched", "scenario": scenario, "variant": rec.get("run"), "seed": ctx.seed, "cfg": cfg,
+               "events": events, "what": what, "signature": sig}
+    raise Violation(ctx.prop, save_replay(ctx.prop, payload), what, sig)
+
+
+def replay_sched(ctx, payload):
+    trace = os.path.join(ctx.work, "replay-sched.ndjson")
+    sh([bin_path("sched"), "--scenario", payload["scenario"], "--variants", str(payload["variant"] + 1), "--seed", str(payload["seed"]), "--out", trace],
+       timeout=1800)
+    ok, info = tlc_trace(ctx, "KvTrace", trace)
     return not ok
 
 
@@ -518,8 +624,125 @@ def check_C01(ctx):
                      "outcome) pairs judged by TLC; evaluations = crash images opened.")
 
 
+def pager_design(ctx):
+    """The mechanism model, exhaustively, plus its two negative self-tests"""
+    s, _ = tlc_check(ctx, "Pager", tiered(ctx, "MC_Pager_small.cfg", "MC_Pager_large.cfg"), workers=8, timeout=tiered(ctx, 900, 7200))
+    tlc_expect_violation(ctx, "Pager", "MC_Pager_race.cfg", "Pinned")
+    tlc_expect_violation(ctx, "Pager", "MC_Pager_slack.cfg", "Pinned")
+    return s
+
+
+def acct_count(ctx):
+    return ctx.notes.get("event_kinds", {}).get("acct", 0)
+
+
+def check_C02(ctx):
+    build()
+    pager_design(ctx)
+    run_sched(ctx, "begin_read", tiered(ctx, 40, 400))
+    runs, steps = tiered(ctx, (30, 500), (300, 1500))
+    run_kv_walk(ctx, "reader", runs, steps, page_sizes="512,1024,4096", caches="1048576,0,4096")
+    run_kv_walk(ctx, "pages", tiered(ctx, 10, 100), 600, page_sizes="512,1024", caches="0,1048576", tag="pages")
+    k = ctx.notes.get("event_kinds", {})
+    ctx.cov["distinct_nontrivial"] += sum(k.get(x, 0) for x in ("dump", "itnext", "get", "range", "mget", "mrange", "acct"))
+    if k.get("dump", 0) < 20 or k.get("itnext", 0) < 10:
+        raise ToolError(f"vacuity: too few snapshot re-reads in the walks: {k}")
+    ctx.assumptions += ["thread interleavings inside one B-tree read are not controlled (only the begin_read window is forced)"]
+    return dict(level="model_checking", exhaustive=True,
+                rule="design: TLC explores every interleaving of reader register/read/drop, savepoint create/drop/restore and every writer "
+                     "step (durable commit with epilogue, non-durable commit, abort) of Pager.tla for 4 pages x 3 transactions x 1 reader x "
+                     "1 savepoint; invariant Pinned (every page a reader/savepoint/durable commit can reach is allocated in EVERY state). "
+                     "code: (1) the begin_read window is forced through a pause point while commits free and reuse pages, the reader's "
+                     "dump must be one commit point of the window; (2) random histories with live readers, owned iterators and guards "
+                     "re-read after later commits/aborts/restores/compaction (cache 0/4 KiB/1 MiB), each re-read must equal the reader's "
+                     "commit point; (3) at every transaction boundary the projected page sets satisfy Pinned/Owner1 (PagerInv.tla). "
+                     "non-trivial = snapshot re-read events and accounting records")
+
+
+def check_C03(ctx):
+    build()
+    pager_design(ctx)
+    run_sched(ctx, "begin_read", tiered(ctx, 40, 400))
+    run_kv_walk(ctx, "mixed", tiered(ctx, 30, 300), tiered(ctx, 500, 1500), page_sizes="512,4096", caches="1048576,0")
+    k = ctx.notes.get("event_kinds", {})
+    ctx.cov["distinct_nontrivial"] += sum(k.get(x, 0) for x in ("cend", "br", "dump", "abort"))
+    ctx.assumptions += ["preemption is modelled at every lock boundary of the anchored code paths (one model action per critical section); "
+                        "data races on relaxed atomics are out of reach of this technique",
+                        "conformance under real threads covers the begin_read window; other windows are design-level only so far"]
+    return dict(level="model_checking", exhaustive=True,
+                rule="design: Pager.tla, all interleavings (see C02) with invariants ReaderSeesCommitted (a reader's root is a committed "
+                     "version not older than its registered id), single write slot (W_Begin enabled only when no writer is live), Pinned. "
+                     "code: forced begin_read/commit interleavings judged by TLC (BeginReadStart/End window of Kv.tla); sequential histories "
+                     "with commits of all durabilities, aborts and readers validated against the serial order of Kv.tla (hist append-only, "
+                     "every transaction begun after a commit sees it)")
+
+
+def check_C05(ctx):
+    build()
+    pager_design(ctx)
+    run_kv_walk(ctx, "pages", tiered(ctx, 16, 160), 600, page_sizes="512,1024", caches="0,1048576", tag="pages")
+    run_kv_walk(ctx, "savepoint", tiered(ctx, 30, 300), tiered(ctx, 400, 1200), page_sizes="512,4096")
+    k = ctx.notes.get("event_kinds", {})
+    ctx.cov["distinct_nontrivial"] += k.get("abort", 0) + k.get("acct", 0)
+    if k.get("abort", 0) < 50:
+        raise ToolError(f"vacuity: too few abandoned transactions: {k}")
+    ctx.assumptions += ["operations failing part-way (I/O error inside rename/delete/restore, panicking predicates) are covered by C08's fault "
+                        "enumeration, not here"]
+    return dict(level="model_checking", exhaustive=True,
+                rule="design: Pager.tla action property AbortRestores (alloc after abort = alloc at begin) and Kv.tla (Abort changes nothing "
+                     "in hist, savepoints created inside stay usable, persistent savepoint changes are undone). code: random histories with "
+                     "25% abandoned transactions (abort / drop / after savepoint create, delete, restore, table create, rename, delete, "
+                     "durability changes); every later call must behave as if the transaction never happened (KvTrace), and the allocated page "
+                     "set recorded before and after an abandoned transaction must be EQUAL (AbortLeavesNoTrace in KvTrace.tla)")
+
+
+def check_C06(ctx):
+    build()
+    pager_design(ctx)
+    run_kv_walk(ctx, "pages", tiered(ctx, 24, 240), tiered(ctx, 600, 1500), page_sizes="512,1024,4096", caches="0,1048576", tag="pages")
+    run_kv_walk(ctx, "pages", tiered(ctx, 6, 60), tiered(ctx, 800, 2000), page_sizes="512", caches="1048576", tag="pages-regions",
+                extra=["--region-size", "65536"], nkeys=200)
+    k = ctx.notes.get("event_kinds", {})
+    ctx.cov["distinct_nontrivial"] += k.get("acct", 0)
+    if k.get("acct", 0) < 200:
+        raise ToolError(f"vacuity: too few accounting records: {k}")
+    ctx.assumptions += ["reachable page sets come from redb's own tree walk (visit_all_pages) through the verif hooks; the independent decoder "
+                        "of C10 is not used here"]
+    return dict(level="model_checking", exhaustive=True,
+                rule="design: Pager.tla invariants Owner1 (at every transaction boundary alloc = data + sys + pending-free lists, each page "
+                     "once), Pinned, AllocRecordsOk over all histories of the small model. code: after EVERY transaction end of random "
+                     "histories (all durabilities, 2PC/quick-repair, aborts, savepoints, readers, reopen, compaction) the projected state "
+                     "(allocator map, reachable sets, DATA_FREED/SYSTEM_FREED/DATA_ALLOCATED tables, in-memory records, tracker) is judged by "
+                     "TLC against the same invariants (PagerInv.tla), and after a settle sequence (everything dropped, 3 empty commits) all "
+                     "pending-free lists must be empty (storage back to exactly what the contents need). non-trivial = accounting records")
+
+
+def check_C07(ctx):
+    build()
+    pager_design(ctx)
+    run_kv_walk(ctx, "savepoint", tiered(ctx, 40, 400), tiered(ctx, 500, 1500), page_sizes="512,1024,4096", caches="1048576,0")
+    run_kv_walk(ctx, "pages", tiered(ctx, 10, 100), 600, page_sizes="512", tag="pages")
+    run_crash(ctx, tiered(ctx, 6, 60), 120, profile="crashsp", tag="crash-savepoints")
+    k = ctx.notes.get("event_kinds", {})
+    ctx.cov["distinct_nontrivial"] += sum(k.get(x, 0) for x in ("spe", "spp", "spdel", "spreste", "sprestp", "spdrop"))
+    if k.get("spreste", 0) + k.get("sprestp", 0) < 30:
+        raise ToolError(f"vacuity: too few savepoint restores: {k}")
+    return dict(level="model_checking", exhaustive=True,
+                rule="design: Kv.tla RestoreCore (data := state at the savepoint, later savepoints invalid on commit, nothing on abort) and "
+                     "Pager.tla W_Restore with Pinned/Owner1 over all orders of create/restore/drop/commit/abort. code: random histories "
+                     "interleaving ephemeral and persistent savepoint create/restore/delete/drop with data transactions of all durabilities, "
+                     "aborts and reopen, every result (incl. InvalidSavepoint / ImmediateDurabilityRequired) and all later contents judged by "
+                     "TLC; page accounting after every transaction; crash images of histories with persistent savepoints must list exactly the "
+                     "savepoints of the recovered commit point")
+
+
 PROPS = {
     "C01": check_C01,
+    "C02": check_C02,
+    "C03": check_C03,
+    "C05": check_C05,
+    "C06": check_C06,
+    "C07": check_C07,
     "C04": check_C04,
     "C09": check_C09,
     "C17": check_C17,
@@ -555,6 +778,8 @@ def main(argv):
             payload = json.load(open(replay))
             if payload.get("kind") == "crash-case":
                 still = replay_crash_case(ctx, replay)
+            elif payload.get("kind") == "sched":
+                still = replay_sched(ctx, payload)
             else:
                 still = replay_kv_script(ctx, payload)
             if still:
@@ -566,7 +791,7 @@ def main(argv):
         path = write_evidence(ctx, res["level"], res["rule"], explanation=res.get("explanation"), exhaustive=res.get("exhaustive", False),
                               checker_cmd=f"./check {prop} --tier {tier}")
         for k in ctx.known_hits:
-            print(f"KNOWN-FINDING: property={prop} {k}")
+            print(f"KNOWN-FINDING: {k}")
         log(f"{prop} ok; evidence {path}; {time.time() - ctx.t0:.0f}s")
         return 0
     except Violation as v:
